@@ -1089,7 +1089,8 @@ fn emit_fn(
     rw.log.extend(r32_log);
     rw.noop_methods = noop.clone();
     rw.guards = d.guards.iter().cloned().collect();
-    rw.allow_log_calls = d.logcalls_drop;
+    rw.allow_log_calls = true; // (the per-function option `logcalls=drop` is now the default)
+    let _ = d.logcalls_drop;
     rw.loop_await_rule = d.loopawaits.as_ref().map(|(n, m, _)| (*n, m.clone()));
     rw.try_expand = method_maps.iter().any(|(k, _)| k == "flag:tryexpand");
     rw.retain_captures = d.retain_captures.clone();
